@@ -18,6 +18,7 @@ type TV struct {
 type EvalCtx struct {
 	c        *Enc
 	fr       *Frame
+	ownerFn  *ssa.Function // the function whose contract is being evaluated when it is not fr.fn (call sites)
 	st       *State
 	old      *State
 	vars     map[string]TV
@@ -151,6 +152,29 @@ func (x *EvalCtx) evalIdent(name string) TV {
 	if x.resolve != nil {
 		if v, ok := x.resolve(name, x); ok {
 			return v
+		}
+		// the contract may use a name the code no longer has: a pure rename is followed (see renames.go)
+		if x.fr != nil {
+			if _, isGhost := c.eng.cf.Ghosts[name]; !isGhost && c.eng.tpkg.Scope().Lookup(name) == nil {
+				owner := x.fr.fn
+				if x.ownerFn != nil {
+					owner = x.ownerFn
+				}
+				for _, cand := range c.eng.renamedCandidates(owner, name) {
+					if v, ok := x.resolve(cand, x); ok {
+						c.note(fmt.Sprintf("%s: contract name `%s` resolved to the renamed variable `%s`", funcKey(owner), name, cand))
+						return v
+					}
+				}
+				if owner == x.fr.fn {
+					if v := c.eng.inlinedAllocation(owner, name); v != nil {
+						if _, known := x.fr.vals[v]; known {
+							c.note(fmt.Sprintf("%s: contract name `%s` resolved to the only %s allocated in the function (the variable was inlined)", funcKey(owner), name, v.Type()))
+							return TV{x.fr.val(v), v.Type()}
+						}
+					}
+				}
+			}
 		}
 	}
 	// ghost_<name>: the ghost variable <name> even when a parameter or local has the same name
